@@ -59,8 +59,18 @@ def find_demo(d, meta):
     return None
 
 
+def normalise_cmd(cmd):
+    # agents sometimes prefix a `cp seeded/... &&` step (done here anyway) or append a parenthetical remark
+    import re
+    cmd = re.sub(r"^\s*cp\s+\S+\s+\S+\s*&&\s*", "", cmd)
+    cmd = re.sub(r"^\s*cd\s+\S+\s*&&\s*", "", cmd)
+    cmd = re.split(r"\s+\(", cmd)[0]
+    cmd = cmd.split(";")[0]
+    return cmd.strip()
+
+
 def run_demo(d, meta):
-    cmd = meta.get("demo_command")
+    cmd = normalise_cmd(meta.get("demo_command"))
     demo = find_demo(d, meta)
     crate_dir = meta.get("demo_crate_dir")
     placed = None
@@ -73,10 +83,10 @@ def run_demo(d, meta):
     return rc, out, placed
 
 
-def confirm(d, meta):
+def confirm(d, meta, demo_only=False):
     ensure_wt()
     patch = os.path.join(d, "patch.diff")
-    res = {}
+    res = dict(meta.get("confirmed", {})) if demo_only else {}
     # demo without the patch
     rc0, out0, placed = run_demo(d, meta)
     res["demo_passes_without_patch"] = rc0 == 0
@@ -94,7 +104,12 @@ def confirm(d, meta):
             os.rmdir(os.path.dirname(placed))
         except OSError:
             pass
+    if demo_only and res.get("suite_passes_with_patch"):
+        sh(["git", "-C", WT, "checkout", "--", "."])
+        res["demo_command_run"] = normalise_cmd(meta.get("demo_command"))
+        return res
     ok, passed, failed, wall, out = suite(WT)
+    res["demo_command_run"] = normalise_cmd(meta.get("demo_command"))
     res["suite_passes_with_patch"] = ok
     res["suite_passed"] = passed
     res["suite_failed"] = failed
@@ -133,6 +148,11 @@ def main():
     args = sys.argv[1:]
     d = os.path.abspath(args[0])
     skip = "--skip-confirm" in args
+    confirm_only = "--confirm-only" in args
+    global WT
+    for i, a in enumerate(args):
+        if a == "--wt":
+            WT = args[i + 1]
     tiers = ["quick", "thorough"]
     props = None
     for i, a in enumerate(args):
@@ -145,13 +165,16 @@ def main():
     if props is None:
         props = [meta["property"]]
     if not skip:
-        meta["confirmed"] = confirm(d, meta)
+        meta["confirmed"] = confirm(d, meta, demo_only="--demo-only" in args)
         print(json.dumps(meta["confirmed"], indent=1)[:1500])
         json.dump(meta, open(meta_path, "w"), indent=1)
         c = meta["confirmed"]
         if not (c.get("patch_applies") and c.get("suite_passes_with_patch") and c.get("demo_fails_with_patch") and c.get("demo_passes_without_patch")):
             print("NOT CONFIRMED: %s" % d)
             return 3
+    if confirm_only:
+        print("CONFIRMED: %s" % d)
+        return 0
     meta.setdefault("checks", {}).update(run_checks(d, meta, props, tiers))
     meta["what_was_run"] = "driver/eval_seeded.py: confirmation in a scratch worktree (suite + demo with/without patch), then " \
                            "`git -C /repo apply patch.diff; ./check <id> --tier quick[,thorough]; git -C /repo checkout -- .`"
